@@ -148,7 +148,8 @@ class Prop:
         frame_c2 = lambda m: [base['single'], base['two'][0], m, other_single, three[0], three[1], three[2]]
         for frame, sub in ((frame_a, muts[::step] + [x for x in short if x not in muts[::step]]), (frame_b, [x for x in muts if x[0] in ('frag1', 'frag2')][::max(1, step // 2)]),
                            (frame_c1, [x for x in muts if x[0] == 'frag1' and x[1].startswith(('sub[', 'frag-'))][::max(1, step // 2)]),
-                           (frame_c2, [x for x in muts if x[0] == 'frag2' and x[1].startswith(('sub[', 'frag-'))][::max(1, step // 2)])):
+                           (frame_c2, [x for x in muts if x[0] == 'frag2' and x[1].startswith('sub[')][::max(1, step // 2)] +
+                                      [x for x in muts if x[1].startswith('frag-')])):
           clean = [l for l in frame(None) if l is not None]
           # reassembly slot of every mutated line / of the first fragment of every delivery: computed once
           mslots = dict(zip([m for _, _, m in sub],
